@@ -220,7 +220,7 @@ func New(cfg world.Cfg, r *rand.Rand, so SeedOpt) (*Sim, error) {
 		if i >= len(so.PIDs) {
 			a.Email = pid
 		}
-		u := &world.User{PID: a.PID, Email: a.Email, Password: Hash4(a.Pw), Confirmed: true}
+		u := &world.User{PID: a.PID, Email: a.Email, Password: w.HashPw(a.Pw), Confirmed: true}
 		if cfg.Secondary {
 			u.Secondary = []string{fmt.Sprintf("alt%d@inbox%d.test", i, i)}
 		}
